@@ -46,6 +46,16 @@ Proof. exact certificate_pool_progress. Qed.
    Publish (send under the emitter lock) is not a safe program and this theorem does not survive a revert of the repair *)
 Theorem C20_event_emitter_progress : progress2 (ops_EventEmitter ++ ops_subscription).
 Proof. exact event_emitter_progress. Qed.
+(* for EVERY lock class of the translated packages: no operation that may wait for another party (Block, Guarded select)
+   happens while it is held - except under subscription.sendMutex, whose only waiting operation is select{send, <-done};
+   that exemption rests on the remover closing done BEFORE it asks for the mutex, pinned on the source below *)
+Theorem C20_no_wait_under_any_lock :
+  forallb (fun l => if Nat.eqb l wait_exempt_lock then true else forallb (never_waits_holding l) all_ops) (seq 0 n_locks) = true.
+Proof. exact no_wait_under_any_lock. Qed.
+Theorem C20_close_signals_before_locking : close_signals_before_locking = true.
+Proof. exact close_signals_before_locking_ok. Qed.
+Theorem C20_methods_lock_as_pinned : forallb (fun x => snd x) locking_table = true.
+Proof. exact locking_table_ok. Qed.
 (* the emitter lock is never held at an operation that may wait for another party (plain send/receive, Wait, select) *)
 Theorem C20_emitter_lock_never_held_while_waiting :
   forallb (never_waits_holding lk_EventEmitter_rwMutex) ((ops_EventEmitter ++ ops_subscription) ++ ops_event_funcs) = true.
